@@ -113,7 +113,11 @@ static void track(int fd, const char *path) {
 
 #define REAL(name) static __typeof__(name) *real = NULL; if (!real) real = dlsym(RTLD_NEXT, #name)
 
+// opens that create or write are logged as "openw": only those (not read-only opens, where ENOENT means "absent")
+// are candidates for an injected ENOENT
+#define WRITE_FLAGS (O_CREAT | O_WRONLY | O_RDWR | O_TRUNC | O_APPEND)
 static int open_common(const char *call, int (*fn)(const char *, int, ...), const char *path, int flags, mode_t mode) {
+    if (flags & WRITE_FLAGS) call = "openw";
     if (!in_hook && path_matches(path)) {
         in_hook = 1;
         int fail = hit(call, path);
@@ -139,6 +143,7 @@ int open64(const char *path, int flags, ...) {
     return open_common("open", real, path, flags, mode);
 }
 static int openat_common(const char *call, int (*fn)(int, const char *, int, ...), int dirfd, const char *path, int flags, mode_t mode) {
+    if (flags & WRITE_FLAGS) call = "openw";
     if (!in_hook && at_matches(dirfd, path)) {
         in_hook = 1;
         int fail = hit(call, path);
